@@ -10,7 +10,7 @@ Import ListNotations.
 Lemma opt_id_is_true o x : opt_id_is o x = true <-> o = Some x.
 Proof.
   destruct o as [y|]; cbn; [|split; discriminate].
-  destruct (Nat.eqb_spec x y); split; intros H; try congruence. discriminate.
+  destruct (Nat.eqb_spec x y); split; intros H; congruence.
 Qed.
 
 Lemma opt_id_is_false o x : opt_id_is o x = false <-> o <> Some x.
@@ -24,7 +24,6 @@ Lemma mem_id_In x l : mem_id x l = true <-> In x l.
 Proof.
   induction l as [|y t IH]; cbn; [split; [discriminate|tauto]|].
   rewrite orb_true_iff, IH. destruct (Nat.eqb_spec x y); split; intros [H|H]; auto; try discriminate.
-  left. congruence.
 Qed.
 
 Lemma mem_id_false x l : mem_id x l = false <-> ~ In x l.
@@ -59,7 +58,7 @@ Proof.
   - left; reflexivity.
   - right; split; reflexivity.
   - right; split; reflexivity.
-  - right; split; [reflexivity|assumption].
+  - right; split; congruence.
 Qed.
 
 Lemma esub_refl old new b : esub old new b b.
@@ -167,9 +166,9 @@ Proof.
 Qed.
 
 (* ---- the two replacement functions ---- *)
-Lemma replace_outgoing_esub b old new : esub old new b (replace_outgoing b old new).
+Lemma replace_outgoing_elif_esub b old new : esub old new b (replace_outgoing_elif b old new).
 Proof.
-  destruct b as [o n|o t f]; cbn [replace_outgoing].
+  destruct b as [o n|o t f]; cbn [replace_outgoing_elif].
   - destruct (opt_id_is n old) eqn:E; cbn; split; auto; [|apply osub_refl].
     apply opt_id_is_true in E. right. split; [exact E|reflexivity].
   - destruct (opt_id_is t old) eqn:E.
@@ -179,9 +178,9 @@ Proof.
       * apply esub_refl.
 Qed.
 
-Lemma replace_outgoing_both_esub b old new : esub old new b (replace_outgoing_both b old new).
+Lemma replace_outgoing_esub b old new : esub old new b (replace_outgoing b old new).
 Proof.
-  destruct b as [o n|o t f]; cbn [replace_outgoing_both].
+  destruct b as [o n|o t f]; cbn [replace_outgoing].
   - destruct (opt_id_is n old) eqn:E; cbn; split; auto; [|apply osub_refl].
     apply opt_id_is_true in E. right. split; [exact E|reflexivity].
   - cbn. repeat split.
@@ -191,11 +190,11 @@ Proof.
       apply opt_id_is_true in E. right. split; [exact E|reflexivity].
 Qed.
 
-Lemma replace_outgoing_complete b old new :
-  dist_b b -> old <> new -> ~ In old (outgoing (replace_outgoing b old new)).
+Lemma replace_outgoing_elif_complete b old new :
+  dist_b b -> old <> new -> ~ In old (outgoing (replace_outgoing_elif b old new)).
 Proof.
   intros D N. rewrite in_outgoing. unfold oin.
-  destruct b as [o n|o t f]; cbn [replace_outgoing].
+  destruct b as [o n|o t f]; cbn [replace_outgoing_elif].
   - destruct (opt_id_is n old) eqn:E; [intros H; congruence|].
     apply opt_id_is_false in E. exact E.
   - destruct (opt_id_is t old) eqn:E.
@@ -206,11 +205,11 @@ Proof.
       * apply opt_id_is_false in E'. tauto.
 Qed.
 
-Lemma replace_outgoing_both_complete b old new :
-  old <> new -> ~ In old (outgoing (replace_outgoing_both b old new)).
+Lemma replace_outgoing_complete b old new :
+  old <> new -> ~ In old (outgoing (replace_outgoing b old new)).
 Proof.
   intros N. rewrite in_outgoing. unfold oin.
-  destruct b as [o n|o t f]; cbn [replace_outgoing_both].
+  destruct b as [o n|o t f]; cbn [replace_outgoing].
   - destruct (opt_id_is n old) eqn:E; [intros H; congruence|].
     apply opt_id_is_false in E. exact E.
   - destruct (opt_id_is t old) eqn:E, (opt_id_is f old) eqn:E';
@@ -223,7 +222,7 @@ Proof.
   intros D H [E|K].
   - subst. apply esub_same in H. subst. exact D.
   - rewrite in_outgoing in K. unfold oin in K.
-    destruct b as [o n|o t f], b' as [o' n'|o' t' f']; cbn in H; try tauto; [exact Logic.I|].
+    destruct b as [o n|o t f], b' as [o' n'|o' t' f']; cbn in H; try tauto.
     destruct H as (_ & [H1|[H1 H1']] & [H2|[H2 H2']]); subst; cbn in *.
     + exact D.
     + destruct t as [t|]; [|exact Logic.I]. intros Q. subst. tauto.
@@ -291,7 +290,7 @@ Proof.
   induction 1 as [|z t N ND IH]; intros K; cbn; [constructor; [intros []|constructor]|].
   constructor.
   - intros H. apply in_app_or in H. destruct H as [H|[H|[]]]; [contradiction|].
-    apply K. left. exact H.
+    apply K. left. symmetry. exact H.
   - apply IH. intros H. apply K. right. exact H.
 Qed.
 
@@ -464,3 +463,10 @@ Section Folds.
         apply nodup_snoc; [exact ND|]. apply mem_id_false. exact M.
   Qed.
 End Folds.
+
+(* ---- validateTree's assertion vs. the covering property ---- *)
+Lemma tree_valid_of_cov g s : inc_covers g s -> (forall x, NoDup (g_inc g x)) -> tree_valid g s.
+Proof. intros C N p b R I. apply count_id_nodup; [apply N|apply (C p b R I)]. Qed.
+
+Lemma cov_of_tree_valid g s : tree_valid g s -> inc_covers g s.
+Proof. intros T p b R I. apply count_id_in. rewrite (T p b R I). discriminate. Qed.
